@@ -279,7 +279,9 @@ class RepeatedNodeWrapper(MutableSequence[_M]):
         return RepeatedNodeWrapper(repeated, self._field)
 
     def drop_many(self, indexes: Iterable[int]) -> None:
-        indexes = sorted(indexes, reverse=True)
+        # Positions as a list understands them: negative ones count from the end, each one once, all within range.
+        length = len(self._repeated.items)
+        indexes = sorted({range(length)[index] for index in indexes}, reverse=True)
         count = itertools.count()
         ranges = (
             list(r) for _, r in itertools.groupby(indexes, key=lambda i: i + next(count))
